@@ -92,28 +92,46 @@ def channel_template(cls):
     return None
 
 
+def copy_arg_kind(cname, k, v):
+    if isinstance(v, ast.Attribute) and isinstance(v.value, ast.Name) and v.value.id == 'self' and v.attr == k:
+        return 'same'
+    if (isinstance(v, ast.Call) and isinstance(v.func, ast.Attribute) and v.func.attr == 'copy'
+            and isinstance(v.func.value, ast.Attribute) and isinstance(v.func.value.value, ast.Name)
+            and v.func.value.value.id == 'self' and v.func.value.attr == k
+            and len(v.keywords) == 1 and isinstance(v.keywords[0].value, ast.Name)
+            and v.keywords[0].value.id == 'relation_transfer_lookup'):
+        return 'copy'
+    fail(v, f"{cname}.copy: argument {k} has an unrecognised shape")
+
+
 def copy_spec(cls):
+    """Two recognised shapes:   return C(k=self.k | self.k.copy(..lookup..), ...)
+                           or   result = C(...); result.f = <same shapes>; ...; return result"""
     for s in cls.body:
         if isinstance(s, ast.FunctionDef) and s.name == 'copy':
-            rets = [x for x in ast.walk(s) if isinstance(x, ast.Return)]
-            if len(rets) != 1:
-                fail(s, f"{cls.name}.copy: expected a single return")
-            call = rets[0].value
+            body = [x for x in s.body if not (isinstance(x, ast.Expr) and isinstance(x.value, ast.Constant))]
+            if not body or not isinstance(body[-1], ast.Return):
+                fail(s, f"{cls.name}.copy: does not end in a return")
+            ret = body[-1].value
+            sets = {}
+            if len(body) == 1:
+                call = ret
+            else:
+                first = body[0]
+                if not (isinstance(first, ast.Assign) and len(first.targets) == 1 and isinstance(first.targets[0], ast.Name)
+                        and isinstance(ret, ast.Name) and ret.id == first.targets[0].id):
+                    fail(s, f"{cls.name}.copy: body shape")
+                call, var = first.value, ret.id
+                for st in body[1:-1]:
+                    if not (isinstance(st, ast.Assign) and len(st.targets) == 1 and isinstance(st.targets[0], ast.Attribute)
+                            and isinstance(st.targets[0].value, ast.Name) and st.targets[0].value.id == var):
+                        fail(st, f"{cls.name}.copy: statement shape")
+                    sets[st.targets[0].attr] = st.value
             if not (isinstance(call, ast.Call) and isinstance(call.func, ast.Name) and call.func.id == cls.name and not call.args):
-                fail(s, f"{cls.name}.copy: does not return {cls.name}(keyword=...)")
-            out = {}
-            for k, v in kwmap(call).items():
-                if isinstance(v, ast.Attribute) and isinstance(v.value, ast.Name) and v.value.id == 'self' and v.attr == k:
-                    out[k] = 'same'
-                elif (isinstance(v, ast.Call) and isinstance(v.func, ast.Attribute) and v.func.attr == 'copy'
-                      and isinstance(v.func.value, ast.Attribute) and isinstance(v.func.value.value, ast.Name)
-                      and v.func.value.value.id == 'self' and v.func.value.attr == k
-                      and len(v.keywords) == 1 and isinstance(v.keywords[0].value, ast.Name)
-                      and v.keywords[0].value.id == 'relation_transfer_lookup'):
-                    out[k] = 'copy'
-                else:
-                    fail(v, f"{cls.name}.copy: argument {k} has an unrecognised shape")
-            return out
+                fail(s, f"{cls.name}.copy: does not construct {cls.name}(keyword=...)")
+            out = {k: copy_arg_kind(cls.name, k, v) for k, v in kwmap(call).items()}
+            post = {k: copy_arg_kind(cls.name, k, v) for k, v in sets.items()}
+            return out, post
     return None
 
 
@@ -164,7 +182,8 @@ def table(repo):
 
     for name in order:
         cls = classes[name]
-        cp = copy_spec(cls)
+        cpp = copy_spec(cls)
+        cp, post = cpp if cpp is not None else (None, None)
         if cp is None:
             if any(isinstance(b, ast.Name) and b.id in ('SingleQubitOperation', 'TwoQubitOperation', 'Barrier', 'ICircuitOperation', 'IAcquisitionOperation') for b in cls.bases):
                 raise TranslateError(f"operation class {name} has no copy() of its own")
@@ -181,9 +200,13 @@ def table(repo):
         for k in cp:
             if k not in init_fields:
                 raise TranslateError(f"{name}.copy passes {k}, which is not an init field")
-        missing = [f for f in init_fields if f not in cp]
+        all_fields = [f['name'] for f in fields]
+        for k in post:
+            if k not in all_fields:
+                raise TranslateError(f"{name}.copy sets {k}, which is not a field")
+        missing = [f for f in init_fields if f not in cp and f not in post]
         res.append({'name': name, 'init_fields': init_fields, 'chan': chan, 'dur': dur, 'dur_init': dfield['init'],
-                    'copy': cp, 'missing': missing, 'copies_link': cp.get('relation') == 'copy',
+                    'copy': cp, 'missing': missing, 'copies_link': 'copy' in (cp.get('relation'), post.get('relation')),
                     'has_relation_init': 'relation' in init_fields})
     return res
 
